@@ -36,7 +36,7 @@ def run_one(mut, args):
         src = src.replace(mut["old"], mut["new"], mut.get("count", 1))
         open(path, "w").write(src)
         res = {"name": mut["name"], "prop": mut["prop"]}
-        env = dict(os.environ, PYTHONPATH=os.path.join(dst, "src"), PYTHONDONTWRITEBYTECODE="1", TQDM_DISABLE="1")
+        env = dict(os.environ, PYTHONPATH=os.path.join(dst, "src"), PYTHONDONTWRITEBYTECODE="1", TQDM_DISABLE="1", OMP_NUM_THREADS="1", OPENBLAS_NUM_THREADS="1", MKL_NUM_THREADS="1")
         if args.tests:
             p = subprocess.run(
                 ["/venv/bin/python", "-m", "pytest", "-q", "-x", "-p", "no:cacheprovider", "--timeout=900", "--deselect", "tests/test_sample_simple_cur.py"],
